@@ -99,7 +99,8 @@ add("with_name", "path", "quote", lambda Y, t: _u(Y).with_name(t), strip="/", ra
     needs=lambda t: t not in (".", ".."), tags=["segment"])
 add("with_suffix", "path", "quote", lambda Y, t: _u(Y).with_suffix("." + t), strip="/", raw=lambda u: u.raw_suffix, tags=["segment", "suffix"],
     needs=lambda t: t != "")
-add("with_suffix.escaped-old", "path", "other", lambda Y, t: Y.URL("http://h.example/d/%D1%84.%D1%82%20x").with_suffix("." + t), strip="/", needs=lambda t: t != "")
+add("with_suffix.escaped-old", "path", "quote", lambda Y, t: Y.URL("http://h.example/d/%D1%84.%D1%82%20x").with_suffix("." + t), strip="/", raw=lambda u: u.raw_suffix,
+    tags=["segment", "suffix", "stem:%D1%84"], needs=lambda t: t != "")
 add("with_suffix.twice", "path", "other", lambda Y, t: Y.URL("http://h.example/d/n").with_suffix("." + t).with_suffix("." + t), strip="/", needs=lambda t: t != "")
 add("with_fragment", "fragment", "quote", lambda Y, t: _u(Y).with_fragment(t), raw=lambda u: u.raw_fragment, readback=lambda u: u.fragment)
 add("with_query.str", "query", "qstring", lambda Y, t: _u(Y).with_query(t), raw=lambda u: u.raw_query_string)
